@@ -4,6 +4,7 @@
   what is logic — the integer-width rule and the registry of inferred types — is proved here.
 -/
 import IpldModel.Model.Bind
+import IpldModel.Generated.GlobalWrites
 namespace Ipld.Props.C19
 open Ipld Ipld.Bind
 
@@ -85,6 +86,16 @@ theorem binding_pure_partial (reg : Registry) (h : List Call)
 /-- the full statement is false of the code as it is: the second inference of the same Go type panics -/
 theorem binding_inferred_twice_witness :
     bindRun false [] [.inferred 7, .inferred 7] = [.ok 7 7, .panic] ∧ [Call.inferred 7, .inferred 7].map single = [.ok 7 7, .ok 7 7] := by decide
+
+/-- (T) Inventory, re-extracted from source on every run, of the package-level variables that any function other
+    than `init` writes in the anchored packages (bindnode, schema, multicodec, traversal, selector, linking, cidlink,
+    basicnode, datamodel, the two DAG codecs, memstore): exactly the registry of inferred schema types (`bindStep`'s
+    state — the known finding) and the codec registry through its registration functions (set-up only by contract).
+    A new global write breaks this theorem. -/
+theorem globalWrites_src_inventory :
+    Generated.globalWrites_src =
+      [("node/bindnode", "defaultTypeSystem", ["inferSchema"]),
+       ("multicodec", "DefaultRegistry", ["RegisterDecoder", "RegisterEncoder"])] := by decide
 
 /-! Non-vacuity -/
 example : assignCode true .u8 255 = .stored 255 ∧ assignCode true .u8 256 = .rejected ∧ assignCode true .i8 (-128) = .stored (-128) := by decide
